@@ -34,6 +34,8 @@ def middle_kernel(ctx, p):
 def local_bound(val, atoms, box, detail=None, H=None):
     """[bound_0, bound_1, bound_2] (Fractions) with |Kp(x)_k - x_k| <= bound_k for every x in the box
     (box: three (lo, hi) pairs); uses A-cbrt (cbrtf within 1 ulp, decided by C18)"""
+    if H is not None and H.cbrt_rel is None:
+        raise Unsupported(H.fail.get('cbrtf') or 'cbrtf accuracy not certified')
     rng = {a.id: (Fr(lo), Fr(hi)) for a, (lo, hi) in zip(atoms, box)}
     an = Analyzer(atom_range=lambda n: rng.get(n.id) if X.is_float(n.ty) else None)
     outs = [an.ev(e) for e in val.fields]
